@@ -32,35 +32,38 @@ Section ParserThm.
 
   Section Fwd.
   Variables mv mb : str -> option str.
+  Variable g : bool.
 
   (* the recursive subparse itself consumes forwards *)
-  Lemma subparse_fwd : forall fuel ends toks ns r, subparse E St mv mb pt ps fuel ends toks = Some (ns, r) -> tsuffix r toks.
+  Lemma subparse_fwd : forall fuel ends toks ns r, subparse E St mv mb g pt ps fuel ends toks = Some (ns, r) -> tsuffix r toks.
   Proof.
     induction fuel as [|f IH]; intros ends toks ns r H; [discriminate|]. destruct toks as [|[k v] rest]; cbn [subparse] in H.
     - inversion H; subst. apply tsuffix_refl.
     - destruct (str_eqb k K_DATA).
-      + destruct (subparse E St mv mb pt ps f ends rest) as [[ns0 r0]|] eqn:Esub; [|discriminate]. inversion H; subst.
+      + destruct (subparse E St mv mb g pt ps f ends rest) as [[ns0 r0]|] eqn:Esub; [|discriminate]. inversion H; subst.
         eapply tsuffix_trans; [eapply IH; eauto|apply tsuffix_tail].
       + destruct (str_eqb k n_variable).
-        * destruct (pt rest) as [[e [|[k2 v2] rest2]]|] eqn:Ept; try discriminate.
+        * destruct (g && negb (is_none (mv v)) && minus_first rest); [discriminate|].
+          destruct (pt rest) as [[e [|[k2 v2] rest2]]|] eqn:Ept; try discriminate.
           destruct (str_eqb k2 K_VAREND); [|discriminate].
-          destruct (subparse E St mv mb pt ps f ends rest2) as [[ns0 r0]|] eqn:Esub; [|discriminate]. inversion H; subst.
+          destruct (subparse E St mv mb g pt ps f ends rest2) as [[ns0 r0]|] eqn:Esub; [|discriminate]. inversion H; subst.
           apply pt_fwd in Ept. eapply tsuffix_trans; [eapply IH; eauto|]. eapply tsuffix_trans; [eapply tsuffix_cons; eauto|apply tsuffix_tail].
         * destruct (str_eqb k n_block); [|discriminate]. destruct rest as [|t r0]; [discriminate|].
           destruct (is_end_name ends t); [inversion H; subst; apply tsuffix_tail|].
-          destruct (ps (subparse E St mv mb pt ps f) (t :: r0)) as [[stmts [|[k2 v2] rest2]]|] eqn:Eps; try discriminate.
+          destruct (ps (subparse E St mv mb g pt ps f) (t :: r0)) as [[stmts [|[k2 v2] rest2]]|] eqn:Eps; try discriminate.
           destruct (str_eqb k2 K_BLOCKEND); [|discriminate].
-          destruct (subparse E St mv mb pt ps f ends rest2) as [[ns0 r1]|] eqn:Esub; [|discriminate]. inversion H; subst.
+          destruct (subparse E St mv mb g pt ps f ends rest2) as [[ns0 r1]|] eqn:Esub; [|discriminate]. inversion H; subst.
           apply ps_fwd in Eps; [|intros; eapply IH; eauto].
           eapply tsuffix_trans; [eapply IH; eauto|]. eapply tsuffix_trans; [eapply tsuffix_cons; eauto|apply tsuffix_tail].
   Qed.
   End Fwd.
 
   Variables mv mb : str -> option str.
+  Variable g : bool.
 
   Theorem subparse_conservative_lemma : forall fuel ends toks,
       no_marker_tokens mv mb toks = true ->
-      subparse E St mv mb pt ps fuel ends toks = subparse E St never never pt ps fuel ends toks.
+      subparse E St mv mb g pt ps fuel ends toks = subparse E St never never g pt ps fuel ends toks.
   Proof.
     induction fuel as [|f IH]; intros ends toks H; [reflexivity|]. destruct toks as [|[k v] rest]; [reflexivity|].
     cbn [subparse]. assert (Hrest : no_marker_tokens mv mb rest = true) by (eapply no_marker_suffix; [apply tsuffix_tail|exact H]).
@@ -70,48 +73,49 @@ Section ParserThm.
     destruct Hv as [Hvv Hvb].
     destruct (str_eqb k K_DATA); [rewrite (IH ends rest Hrest); reflexivity|].
     destruct (str_eqb k n_variable) eqn:Hkv.
-    - rewrite (Hvv eq_refl). unfold never.
+    - rewrite (Hvv eq_refl). unfold never. cbn [is_none negb]. rewrite !andb_false_r. cbn [andb].
       destruct (pt rest) as [[e [|[k2 v2] rest2]]|] eqn:Ept; try reflexivity.
       destruct (str_eqb k2 K_VAREND); [|reflexivity]. rewrite IH; [reflexivity|].
       eapply no_marker_suffix; [|exact Hrest]. apply pt_fwd in Ept. eapply tsuffix_cons; eauto.
     - destruct (str_eqb k n_block) eqn:Hkb; [|reflexivity].
       rewrite (Hvb eq_refl). unfold never.
       destruct rest as [|t r]; [reflexivity|]. destruct (is_end_name ends t); [reflexivity|].
-      rewrite (ps_local (subparse E St mv mb pt ps f) (subparse E St never never pt ps f) (t :: r)).
+      rewrite (ps_local (subparse E St mv mb g pt ps f) (subparse E St never never g pt ps f) (t :: r)).
       + destruct (ps _ (t :: r)) as [[stmts [|[k2 v2] rest2]]|] eqn:Eps; try reflexivity.
         destruct (str_eqb k2 K_BLOCKEND); [|reflexivity]. rewrite IH; [reflexivity|].
-        eapply no_marker_suffix; [|exact Hrest]. apply ps_fwd in Eps; [|intros; eapply (subparse_fwd never never f); eauto]. eapply tsuffix_cons; eauto.
-      + intros; eapply (subparse_fwd never never f); eauto.
+        eapply no_marker_suffix; [|exact Hrest]. apply ps_fwd in Eps; [|intros; eapply (subparse_fwd never never g f); eauto]. eapply tsuffix_cons; eauto.
+      + intros; eapply (subparse_fwd never never g f); eauto.
       + intros e0 t0 Hs. apply IH. eapply no_marker_suffix; eauto.
   Qed.
 
   (* the print statement opened with the marker: what the bundled parser builds, for ANY begin token the parser takes for a marker *)
   Lemma subparse_marker_print f ends v w te e ve rest :
-    mv v = Some w ->
+    mv v = Some w -> g && minus_first te = false ->
     pt te = Some (e, (K_VAREND, ve) :: rest) ->
-    subparse E St mv mb pt ps (S f) ends ((n_variable, v) :: te) =
-    match subparse E St mv mb pt ps f ends rest with
+    subparse E St mv mb g pt ps (S f) ends ((n_variable, v) :: te) =
+    match subparse E St mv mb g pt ps f ends rest with
     | Some (ns, r) => Some (PPrint (NFilter e autoindent_filter_name w) :: ns, r)
     | None => None
     end.
   Proof.
-    intros Hm Hpt. cbn [subparse]. replace (str_eqb n_variable K_DATA) with false by reflexivity.
-    replace (str_eqb n_variable n_variable) with true by reflexivity. rewrite Hpt, Hm.
-    replace (str_eqb K_VAREND K_VAREND) with true by reflexivity. reflexivity.
+    intros Hm Hg Hpt. cbn [subparse]. replace (str_eqb n_variable K_DATA) with false by reflexivity.
+    replace (str_eqb n_variable n_variable) with true by reflexivity. rewrite Hm. cbn [is_none negb].
+    replace (g && true && minus_first te) with false by (rewrite andb_true_r; symmetry; exact Hg).
+    rewrite Hpt. replace (str_eqb K_VAREND K_VAREND) with true by reflexivity. reflexivity.
   Qed.
 
   Lemma subparse_plain_print f ends v te e ve rest :
     mv v = None ->
     pt te = Some (e, (K_VAREND, ve) :: rest) ->
-    subparse E St mv mb pt ps (S f) ends ((n_variable, v) :: te) =
-    match subparse E St mv mb pt ps f ends rest with
+    subparse E St mv mb g pt ps (S f) ends ((n_variable, v) :: te) =
+    match subparse E St mv mb g pt ps f ends rest with
     | Some (ns, r) => Some (PPrint (NPlain e) :: ns, r)
     | None => None
     end.
   Proof.
     intros Hm Hpt. cbn [subparse]. replace (str_eqb n_variable K_DATA) with false by reflexivity.
-    replace (str_eqb n_variable n_variable) with true by reflexivity. rewrite Hpt, Hm.
-    replace (str_eqb K_VAREND K_VAREND) with true by reflexivity. reflexivity.
+    replace (str_eqb n_variable n_variable) with true by reflexivity. rewrite Hm. cbn [is_none negb]. rewrite andb_false_r. cbn [andb].
+    rewrite Hpt. replace (str_eqb K_VAREND K_VAREND) with true by reflexivity. reflexivity.
   Qed.
 End ParserThm.
 
@@ -198,16 +202,17 @@ Section PipelineThm.
   (* template text -> output: bundled lexer rules + bundled parser  =  upstream rules (marker alternatives deleted) + upstream
      parser, for EVERY rule list (every option combination), every behaviour of the unmodified parts, every context *)
   Variables mv mb : str -> option str.
+  Variable g : bool.
 
   Theorem pipeline_conservative_lemma (u : uni) (rules : xrules) (inner : str -> option N -> str -> option (list xtok * nat))
           (fuel : nat) (src : str) (c : C) :
     marker_free u rules None src = true ->
     (forall toks, scanx_all u (demarkx rules) inner src = Some toks -> no_marker_tokens mv mb (wrap toks) = true) ->
-    pipeline E St C V mv mb pt ps ev text rs u rules inner fuel src c =
-    pipeline E St C V never never pt ps ev text rs u (demarkx rules) inner fuel src c.
+    pipeline E St C V mv mb g pt ps ev text rs u rules inner fuel src c =
+    pipeline E St C V never never g pt ps ev text rs u (demarkx rules) inner fuel src c.
   Proof.
     intros Hm Ht. unfold pipeline, scanx_all in *. rewrite (scanx_conservative_lemma u rules inner _ None src Hm).
     destruct (scanx u (demarkx rules) inner (S (length src)) None src) as [toks|] eqn:E0; [|reflexivity].
-    rewrite (subparse_conservative_lemma E St pt ps pt_fwd ps_fwd ps_local mv mb fuel [] (wrap toks) (Ht toks eq_refl)). reflexivity.
+    rewrite (subparse_conservative_lemma E St pt ps pt_fwd ps_fwd ps_local mv mb g fuel [] (wrap toks) (Ht toks eq_refl)). reflexivity.
   Qed.
 End PipelineThm.
